@@ -526,7 +526,10 @@ func (tr *Trans) applyContract(ct *Contract, fn *ssa.Function, sig *types.Signat
 	if tr.g.dry == 0 {
 		for _, rq := range ct.Requires {
 			env := mkEnv(pre, pre)
-			if top := tr.g.topTr; rq.TypeInv && top != nil && top.contract != nil && top.contract.Thin {
+			// a data-structure invariant over unexported state is the owning package's obligation; swept functions and
+			// functions of other packages (which cannot reach that state) assume it
+			if top := tr.g.topTr; rq.TypeInv && top != nil && (top.contract != nil && top.contract.Thin || top.fn.Pkg != nil && ct.Pkg != "" && top.fn.Pkg.Pkg.Path() != ct.Pkg ||
+				rq.TypeInvFile != "" && top.fn.Pos().IsValid() && !strings.HasSuffix(tr.g.ld.fset.Position(top.fn.Pos()).Filename, rq.TypeInvFile)) {
 				tr.assumeClause(env, tr.rc, rq.AST)
 				tr.g.e.note("assumed: data-structure invariant '%s' of %s holds for the values swept functions pass to it", rq.Label, short)
 				continue
